@@ -273,6 +273,7 @@ package pql
 //@   ensures @either: (result0 != "" && result1 == nil) || (result0 == "" && result1 != nil)
 
 //@ func pql.(*CompileOptions).Compile
+//@   function compileOf
 //@   use compile
 //@   hide expr exprwf joincond view
 //@   ensures @either: (result0 != "" && result1 == nil) || (result0 == "" && result1 != nil)
